@@ -40,7 +40,7 @@ type wpCfg struct {
 type wpEvent struct {
 	kind string // call lock leader flushed accept overflow group applied publish ack handoff release ret sent
 	w    int    // writer call id (or -1)
-	a, b uint64
+	a, b, c uint64
 	s    string
 }
 
@@ -98,7 +98,8 @@ func (wr *wpRun) sink(point string, args []interface{}) {
 	case "w.group":
 		seq, _ := arg(0).(uint64)
 		n, _ := arg(1).(int)
-		wr.log(wpEvent{kind: "group", w: -1, a: seq, b: uint64(n)})
+		nb, _ := arg(2).(int)
+		wr.log(wpEvent{kind: "group", w: -1, a: seq, b: uint64(n), c: uint64(nb)})
 	case "w.applied":
 		wr.log(wpEvent{kind: "applied", w: -1})
 	case "w.publish":
@@ -197,6 +198,7 @@ func runWp(cfg wpCfg) (*wpRun, map[string]int) {
 				}
 				var err error
 				var keys [][]byte
+				viaTx := false
 				if rr.Bool() {
 					k := []byte(fmt.Sprintf("k%06d", id))
 					keys = [][]byte{k}
@@ -213,11 +215,22 @@ func runWp(cfg wpCfg) (*wpRun, map[string]int) {
 					if b.Len() == 0 {
 						continue
 					}
-					wr.byBat.Store(b, id)
-					wr.log(wpEvent{kind: "call", w: id, a: uint64(merge)})
+					// a batch larger than the write buffer is routed through a transaction: it competes for the
+					// write lock like any other lock holder but takes no part in the merge protocol
+					ilen := 0
+					for _, k := range keys {
+						ilen += len(k) + len(val) + 8
+					}
+					viaTx = ilen > cfg.Opts.WriteBuffer && !cfg.Opts.DisableLargeBatchTx
+					if !viaTx {
+						wr.byBat.Store(b, id)
+						wr.log(wpEvent{kind: "call", w: id, a: uint64(merge)})
+					}
 					err = db.Write(b, wo)
 				}
-				wr.log(wpEvent{kind: "ret", w: id, s: concErrClass(err)})
+				if !viaTx {
+					wr.log(wpEvent{kind: "ret", w: id, s: concErrClass(err)})
+				}
 				resMu.Lock()
 				results = append(results, callRes{id, err, keys, val})
 				resMu.Unlock()
@@ -366,7 +379,7 @@ func wpLines(c *Ctx, evs []wpEvent) {
 		case "flushed":
 			c.Lean(fmt.Sprintf("wp flushed %d", e.a), "ok")
 		case "group":
-			c.Lean(fmt.Sprintf("wp group %d %d", e.a, e.b), "ok")
+			c.Lean(fmt.Sprintf("wp group %d %d %d", e.a, e.b, e.c), "ok")
 		case "publish":
 			c.Lean(fmt.Sprintf("wp publish %d", e.a), "ok")
 		case "applied", "ack", "handoff", "release":
@@ -382,7 +395,7 @@ func wpLines(c *Ctx, evs []wpEvent) {
 	c.Lean("wp end", "ok")
 }
 
-var wpEmitLean = false // switched on once the Lean validator (Driver/WriteProto.lean) is wired into gldriver
+var wpEmitLean = true // switched on once the Lean validator (Driver/WriteProto.lean) is wired into gldriver
 
 func init() {
 	Registry["C10"] = func(c *Ctx) {
